@@ -50,8 +50,13 @@ class Recorder:
         perts = context.perturbations
         for i in range(variables.shape[0]):
             self.rows.append((-1 if perts is None else int(perts[i]), variables[i].copy()))
+        if getattr(self, "scribble", None) is not None:
+            self.scribble[...] = 77.0                # the caller recycles the array it started the step with
         r = context.realizations.astype(np.float64)
-        return EvaluatorResult(objectives=((variables ** 2).sum(axis=1) + r)[:, None])
+        obj = ((variables ** 2).sum(axis=1) + r)[:, None]
+        if getattr(self, "fail_perturbations", False) and perts is not None:
+            obj[perts >= 0] = np.nan                 # every perturbed evaluation fails: no realization is left for the gradient
+        return EvaluatorResult(objectives=obj)
 
     def take(self):
         rows, res = self.rows, self.results
@@ -102,6 +107,10 @@ def drive_script(sc):
         start = ((np.array(X0) - o_) / s_).tolist()
     cfg = base_config(sc, "rvscript/script")
     cfg["optimizer"]["options"] = {"script": script}
+    if zlib.crc32(("all perturbations fail" + str(sc["script"])).encode()) % 4 == 0:
+        # threshold zero and every perturbed evaluation fails: whatever is reported as gradient, fixed entries are exactly zero
+        cfg["realizations"]["realization_min_success"] = 0
+        rec.fail_perturbations = True
     if not sc["nested"] and transforms is None and not all(mask) and zlib.crc32(str(sc["script"]).encode()) % 4 == 2:
         # relative perturbations, finite bounds for the free variables, NO bounds for the fixed ones: such a configuration is
         # either refused or run with the fixed variables untouched
@@ -161,7 +170,11 @@ def drive_script(sc):
         cfg["variables"]["mask"] = judged_mask
         rec.take()
         ScriptPlugin.reset([])
-    _, outcome = outcome_of(lambda: plan.run_step(step, config=cfg, variables=start, **kwargs))
+    # the start vector is handed over as a float array of the caller's, who overwrites it during the run
+    start_array = np.array(start, dtype=np.float64)
+    rec.scribble = start_array
+    _, outcome = outcome_of(lambda: plan.run_step(step, config=cfg, variables=start_array, **kwargs))
+    rec.scribble = None
     rows, results = rec.take()
     trace = [{"ev": "Start", "x0": [int(v) for v in X0], "mask": mask, "outcome": outcome, "kind": "", "xf": [], "nested": [], "rows": [],
               "unpert": [], "resvars": [], "pertvars": [], "gradzero": [], "glen": -1,
